@@ -56,9 +56,11 @@ func treeHash() string {
 		fmt.Fprintf(h, "%s\x00%d\x00", strings.TrimPrefix(f, repo), len(b))
 		h.Write(b)
 	}
-	// the simulator's own C source is part of the toolchain
-	if b, err := os.ReadFile(filepath.Join(simDir, "c", "simheap.c")); err == nil {
-		h.Write(b)
+	// the simulator's own seam sources are part of what is built
+	for _, f := range []string{"c/simheap.c", "verifsim_tmpl/verifsim.go.txt", "rewriter/main.go"} {
+		if b, err := os.ReadFile(filepath.Join(simDir, f)); err == nil {
+			h.Write(b)
+		}
 	}
 	return hex.EncodeToString(h.Sum(nil))[:16]
 }
